@@ -17,6 +17,8 @@ Respellings (each sound for the value types the package uses there; applicabilit
   demorgan           not a and not b            ->  not (a or b)
   tuple-in           x in [a, b]                 ->  x in (a, b)
   else-after-term    if c: ...return/raise/continue; rest  ->  if c: ... else: rest   (and back)
+  call-counter / scan-loop / memo-len : ADDED code that changes nothing (a per-method call counter, a loop that only looks at a list after it was
+                     mutated, a length computed into a local right before the test that uses it)
 """
 import argparse
 import ast
@@ -391,11 +393,84 @@ class EarlyReturnGuard(Base):
                 fn.body[-1:] = [guard] + last.body
 
 
+class CallCounter(Base):
+    """added code: every method counts its calls in a private attribute (`self._n_calls = getattr(self, '_n_calls', 0) + 1` as first statement)"""
+
+    def run(self, tree):
+        for cls in [n for n in ast.walk(tree) if isinstance(n, ast.ClassDef)]:
+            for fn in [n for n in cls.body if isinstance(n, ast.FunctionDef)]:
+                if not fn.args.args or fn.args.args[0].arg != 'self' or fn.name.startswith('__'):
+                    continue
+                doc = 1 if fn.body and isinstance(fn.body[0], ast.Expr) and isinstance(fn.body[0].value, ast.Constant) else 0
+                st = ast.parse("self._n_calls = getattr(self, '_n_calls', 0) + 1").body[0]
+                fn.body[doc:doc] = [st]
+                self.hit()
+
+
+class ScanLoop(Base):
+    """added code: after the first top-level statement of a store method that mutates a role list, a loop that only looks at the list
+    (`for _seen in list(self.<L>): _last_seen = _seen`)"""
+
+    def run(self, tree):
+        for fn in [n for n in ast.walk(tree) if isinstance(n, ast.FunctionDef)]:
+            if any(isinstance(x, (ast.Yield, ast.YieldFrom)) for x in ast.walk(fn)):
+                continue
+            for blk in [fn.body] + [getattr(n, f) for n in ast.walk(fn) for f in ('body', 'orelse') if isinstance(n, (ast.If,)) and getattr(n, f, None)]:
+                done = False
+                for i, st in enumerate(list(blk)):
+                    if isinstance(st, ast.Expr) and isinstance(st.value, ast.Call) and isinstance(st.value.func, ast.Attribute) \
+                            and st.value.func.attr in ('append', 'pop', 'remove', 'insert') and is_self_attr(st.value.func.value, ROLE) and not done:
+                        L = ast.unparse(st.value.func.value)
+                        loop = ast.parse(f"for _seen in list({L}):\n    _last_seen = _seen").body[0]
+                        blk.insert(i + 1, loop)
+                        self.hit()
+                        done = True
+                if done:
+                    break
+
+
+class MemoLen(Base):
+    """added code: `len(self.<L>)` in an if-test / return value without other calls is computed into a local right before the statement"""
+
+    def run(self, tree):
+        for n in ast.walk(tree):
+            for f in ('body', 'orelse', 'finalbody'):
+                b = getattr(n, f, None)
+                if not (isinstance(b, list) and b and isinstance(b[0], ast.stmt)) or isinstance(n, (ast.Module, ast.ClassDef)):
+                    continue
+                i = 0
+                while i < len(b):
+                    st = b[i]
+                    expr = st.test if isinstance(st, ast.If) else (st.value if isinstance(st, ast.Return) else None)
+                    if expr is not None:
+                        lens = [c for c in ast.walk(expr) if isinstance(c, ast.Call) and isinstance(c.func, ast.Name) and c.func.id == 'len'
+                                and len(c.args) == 1 and is_self_attr(c.args[0], ROLE)]
+                        others = [c for c in ast.walk(expr) if isinstance(c, ast.Call) and c not in lens]
+                        if lens and not others and not any(isinstance(x, (ast.BoolOp, ast.IfExp)) for x in ast.walk(expr)):
+                            pre = []
+                            seen = {}
+                            for c in lens:
+                                L = c.args[0].attr
+                                name = f'_len_{L}'
+                                if L not in seen:
+                                    seen[L] = name
+                                    pre.append(ast.Assign(targets=[ast.Name(id=name, ctx=ast.Store())], value=copy.deepcopy(c), lineno=st.lineno))
+                                c.__class__ = ast.Name
+                                c.id = name
+                                c.ctx = ast.Load()
+                                c._fields = ('id', 'ctx')
+                                self.hit()
+                            b[i:i] = pre
+                            i += len(pre)
+                    i += 1
+
+
 def build(name, p):
     cls = {'flag-eq-true': FlagEqTrue, 'flag-plain': FlagPlain, 'len-zero': LenZero, 'len-truth': LenTruth, 'swap-if-else': SwapIfElse,
            'flip-compare': FlipCompare, 'aug-expand': AugExpand, 'aug-contract': AugContract, 'ne-not-eq': NeNotEq, 'is-not-none': IsNotNone,
            'demorgan': DeMorgan, 'tuple-in': TupleIn, 'else-after-term': ElseAfterTerm, 'else-after-term-back': ElseAfterTermBack,
-           'rename-locals': RenameLocals, 'next-to-loop': NextToLoop, 'alias-role-lists': AliasRoleLists, 'early-return-guard': EarlyReturnGuard}[name]
+           'rename-locals': RenameLocals, 'next-to-loop': NextToLoop, 'alias-role-lists': AliasRoleLists, 'early-return-guard': EarlyReturnGuard,
+           'call-counter': CallCounter, 'scan-loop': ScanLoop, 'memo-len': MemoLen}[name]
     cls.count = 0
     out = {}
     for rel, m in p.modules.items():
@@ -417,7 +492,8 @@ def build(name, p):
 
 
 NAMES = ['flag-eq-true', 'flag-plain', 'len-zero', 'len-truth', 'swap-if-else', 'flip-compare', 'aug-expand', 'aug-contract', 'ne-not-eq', 'is-not-none',
-         'demorgan', 'tuple-in', 'else-after-term', 'else-after-term-back', 'rename-locals', 'next-to-loop', 'alias-role-lists', 'early-return-guard']
+         'demorgan', 'tuple-in', 'else-after-term', 'else-after-term-back', 'rename-locals', 'next-to-loop', 'alias-role-lists', 'early-return-guard',
+         'call-counter', 'scan-loop', 'memo-len']
 
 
 def job(args):
